@@ -84,6 +84,8 @@ def read_cmake(text):
             lst = [x for x in body.split(";") if x]
         elif line.startswith("set(CONFIG_") and line.endswith('")'):
             n, _, v = line[11:-2].partition(' "')
+            if n in out and out[n] != v:
+                v = "<conflicting definitions>"  # the same variable set twice to different values agrees with nothing
             out[n] = v
     return out, lst
 
